@@ -37,10 +37,12 @@ func c20Poly(c *Ctx) {
 	c20PolyCurve(c, "k256", cK256, rounds, 11)
 	c20PolyCurve(c, "ed25519", cEd25519, rounds, 12)
 	c20PolyCurve(c, "bls12381g1", cBLSG1, rounds, 13)
-	if c.Thorough() {
-		c20PolyCurve(c, "p256", cP256, rounds/2, 14)
-		c20PolyCurve(c, "pallas", cPallas, rounds/2, 15)
-	}
+	// every curve group of the library (fewer rounds in the quick tier: the affine Lean curve model pays
+	// per scalar bit, and G2 arithmetic is over Fp2)
+	c20PolyCurve(c, "p256", cP256, rounds/3, 14)
+	c20PolyCurve(c, "pallas", cPallas, rounds/3, 15)
+	c20PolyCurve(c, "vesta", cVesta, rounds/3, 16)
+	c20PolyCurve(c, "bls12381g2", cBLSG2, rounds/3, 17)
 }
 
 // c20ErrClass maps library errors to the small stable enum of the line protocol.
@@ -264,6 +266,49 @@ func c20PolyField[S algebra.PrimeFieldElement[S]](c *Ctx, f algebra.PrimeField[S
 					break
 				}
 				d = out
+			}
+		}
+		// ---- Add / ScalarMul / Mul (evaluation is linear and multiplicative)
+		{
+			na, nb := 1+r.IntN(6), 1+r.IntN(6)
+			if r.IntN(6) == 0 {
+				na = 0 // PolynomialRing.New() of no coefficients is the zero polynomial [0]
+			}
+			pa, errA := ring.New(c20Coeffs(r, f, na)...)
+			pb, errB := ring.New(c20Coeffs(r, f, nb)...)
+			if errA != nil || errB != nil {
+				c.Violation(fmt.Sprintf("PolynomialRing.New: %v %v", errA, errB))
+				continue
+			}
+			sc := smallOrRandom(r, f, 40)
+			x := smallOrRandom(r, f, 40)
+			var sum, prod, scaled *polynomials.Polynomial[S]
+			c.Count("poly.add")
+			c.Emit(fmt.Sprintf("polyAdd %s %s %s", p, scalarsHex(pa.Coefficients()), scalarsHex(pb.Coefficients())),
+				safely(func() string { sum = pa.Add(pb); return scalarsHex(sum.Coefficients()) }))
+			c.Count("poly.scalarMul")
+			c.Emit(fmt.Sprintf("polyScalarMul %s %s %s", p, scalarsHex(pa.Coefficients()), scalarHex(sc)),
+				safely(func() string { scaled = pa.ScalarMul(sc); return scalarsHex(scaled.Coefficients()) }))
+			c.Count("poly.mul")
+			c.Emit(fmt.Sprintf("polyMul %s %s %s", p, scalarsHex(pa.Coefficients()), scalarsHex(pb.Coefficients())),
+				safely(func() string { prod = pa.Mul(pb); return scalarsHex(prod.Coefficients()) }))
+			// Go-side oracle (no model): evaluation is a ring homomorphism
+			if sum != nil && !sum.Eval(x).Equal(pa.Eval(x).Add(pb.Eval(x))) {
+				c.Violation(fmt.Sprintf("(a+b)(x) != a(x)+b(x): p=%s a=%s b=%s x=%s", p, scalarsHex(pa.Coefficients()), scalarsHex(pb.Coefficients()), scalarHex(x)))
+			}
+			if scaled != nil && !scaled.Eval(x).Equal(pa.Eval(x).Mul(sc)) {
+				c.Violation(fmt.Sprintf("(s*a)(x) != s*a(x): p=%s a=%s s=%s x=%s", p, scalarsHex(pa.Coefficients()), scalarHex(sc), scalarHex(x)))
+			}
+			if prod != nil && !prod.Eval(x).Equal(pa.Eval(x).Mul(pb.Eval(x))) {
+				c.Violation(fmt.Sprintf("(a*b)(x) != a(x)*b(x): p=%s a=%s b=%s x=%s", p, scalarsHex(pa.Coefficients()), scalarsHex(pb.Coefficients()), scalarHex(x)))
+			}
+			// the derivative obeys the product rule at x
+			if prod != nil {
+				lhs := prod.Derivative().Eval(x)
+				rhs := pa.Derivative().Eval(x).Mul(pb.Eval(x)).Add(pa.Eval(x).Mul(pb.Derivative().Eval(x)))
+				if !lhs.Equal(rhs) {
+					c.Violation(fmt.Sprintf("(a*b)'(x) != a'(x)b(x)+a(x)b'(x): p=%s a=%s b=%s x=%s", p, scalarsHex(pa.Coefficients()), scalarsHex(pb.Coefficients()), scalarHex(x)))
+				}
 			}
 		}
 		// ---- Lagrange
@@ -657,7 +702,9 @@ func c20PolyCurve[P curves.Point[P, F, S], F algebra.FiniteFieldElement[F], S al
 		}
 		// ---- Lift / LeftAction / RightAction
 		for k := 0; k < 3; k++ {
-			m, kk, n := 1+r.IntN(2), 1+r.IntN(3), 1+r.IntN(2)
+			// shapes up to 3×3 so that non-square actors with both dimensions >= 2 (where row-major and
+			// column-major addressing differ) occur on both sides
+			m, kk, n := 1+r.IntN(3), 1+r.IntN(3), 1+r.IntN(3)
 			aRows := c20ScalarRows(r, f, m, kk)
 			rRows := c20ScalarRows(r, f, kk, n)
 			modA, _ := mat.NewMatrixModule(uint(m), uint(kk), f)
@@ -709,7 +756,7 @@ func c20PolyCurve[P curves.Point[P, F, S], F algebra.FiniteFieldElement[F], S al
 				}
 			}
 			if k == 1 || k == 2 { // lift(R, g) · B
-				q := 1 + r.IntN(2)
+				q := 1 + r.IntN(3)
 				bRows := c20ScalarRows(r, f, n, q)
 				modB, _ := mat.NewMatrixModule(uint(n), uint(q), f)
 				B, errB := modB.New(bRows)
